@@ -112,11 +112,13 @@ OnceEnd ==
   /\ fr' = <<>> /\ sm' = NoSM
   /\ UNCHANGED <<scen, kind, seen>>
 
+\* cleanups registered by the goroutines of one "go" op (grp > 0) are registered concurrently: they have no defined order among themselves
+Grp == IF "grp" \in DOMAIN Ev THEN Ev.grp ELSE 0
 Reg ==
   /\ Is("cleanup.reg") /\ Adv
   /\ LET i == FrameOf(Ev.inv) IN
      IF i = 0 THEN /\ fr' = fr /\ viol' = viol \cup {"cleanup_after_end"}
-     ELSE /\ fr' = [fr EXCEPT ![i].stack = Append(@, Ev.id), ![i].regs = @ + 1] /\ viol' = viol
+     ELSE /\ fr' = [fr EXCEPT ![i].stack = Append(@, [id |-> Ev.id, grp |-> Grp]), ![i].regs = @ + 1] /\ viol' = viol
   /\ UNCHANGED <<scen, kind, sm, seen>>
 
 \* a cleanup function starts: it must be the most recently registered one that has not run,
@@ -126,10 +128,12 @@ Run ==
   /\ LET i == FrameOf(Ev.inv) IN
      IF i = 0 THEN /\ fr' = fr /\ viol' = viol \cup {"cleanup_after_end"}
      ELSE LET f == fr[i] IN
-          /\ viol' = viol \cup If(f.open, "cleanup_before_return")
+          /\ LET top == f.stack[Len(f.stack)]
+                  lifo == top.id = Ev.id \/ (top.grp # 0 /\ \E j \in 1..Len(f.stack) : f.stack[j].id = Ev.id /\ f.stack[j].grp = top.grp)
+             IN viol' = viol \cup If(f.open, "cleanup_before_return")
                           \cup If(f.stack = <<>> \/ Ev.id \in f.ran, "cleanup_run_twice_or_unknown")
-                          \cup If(f.stack # <<>> /\ f.stack[Len(f.stack)] # Ev.id /\ Ev.id \notin f.ran, "cleanup_not_lifo")
-          /\ fr' = [fr EXCEPT ![i].stack = SelectSeq(f.stack, LAMBDA x : x # Ev.id), ![i].ran = f.ran \cup {Ev.id}, ![i].running = Ev.id]
+                          \cup If(f.stack # <<>> /\ Ev.id \notin f.ran /\ ~lifo, "cleanup_not_lifo")
+          /\ fr' = [fr EXCEPT ![i].stack = SelectSeq(f.stack, LAMBDA x : x.id # Ev.id), ![i].ran = f.ran \cup {Ev.id}, ![i].running = Ev.id]
   /\ UNCHANGED <<scen, kind, sm, seen>>
 
 RunEnd ==
